@@ -274,6 +274,7 @@ pdgstrf_MemInit(int_t n, int_t annz, superlumt_options_t *superlumt_options,
     int_t      FILL_LUSUP = sp_ienv(6); /* Guess the fill-in growth for LUSUP */
     int_t      FILL_UCOL = sp_ienv(7); /* Guess the fill-in growth for UCOL */
     int_t      FILL_LSUB = sp_ienv(8); /* Guess the fill-in growth for LSUB */
+    float      t;
     
     no_expand = 0;
     ndim      = n;
@@ -299,6 +300,8 @@ pdgstrf_MemInit(int_t n, int_t annz, superlumt_options_t *superlumt_options,
 	}
 
 	if ( lwork == -1 ) {
+	    SUPERLU_FREE(dexpanders); /* nothing is allocated by a query */
+	    dexpanders = 0;
 	    return (GluIntArray(n) * iword + 
 		    superlu_dTempSpace(n, panel_size, nprocs)
 		    + (nzlmax+nzumax)*iword + (nzlumax+nzumax)*dword);
@@ -354,7 +357,9 @@ pdgstrf_MemInit(int_t n, int_t annz, superlumt_options_t *superlumt_options,
 	    nzlmax /= 2;
 	    if ( nzumax < annz/2 ) {
 		printf("Not enough memory to perform factorization.\n");
-		return (pdgstrf_memory_use(nzlmax, nzumax, nzlumax) + n);
+		t = pdgstrf_memory_use(nzlmax, nzumax, nzlumax) + n;
+		ucol = NULL; lsub = NULL; usub = NULL; /* released above */
+		goto give_up;
 	    }
 	    ucol  = (double *) pdgstrf_expand( &nzumax, UCOL, 0, 0, Glu );
 	    lsub  = (int_t *)  pdgstrf_expand( &nzlmax, LSUB, 0, 0, Glu );
@@ -362,11 +367,11 @@ pdgstrf_MemInit(int_t n, int_t annz, superlumt_options_t *superlumt_options,
 	}
 	
 	if ( !lusup )  {
-	    float t = pdgstrf_memory_use(nzlmax, nzumax, nzlumax) + n;
+	    t = pdgstrf_memory_use(nzlmax, nzumax, nzlumax) + n;
 	    printf("Not enough memory to perform factorization .. "
 		   "need %.1f GBytes\n", t*1e-9);
 	    fflush(stdout);
-	    return (t);
+	    goto give_up;
 	}
 	
     } else { /* refact == YES */
@@ -386,6 +391,8 @@ pdgstrf_MemInit(int_t n, int_t annz, superlumt_options_t *superlumt_options,
 	nzlumax  = Glu->nzlumax;
 	
 	if ( lwork == -1 ) {
+	    SUPERLU_FREE(dexpanders); /* nothing is allocated by a query */
+	    dexpanders = 0;
 	    return (GluIntArray(n) * iword + superlu_dTempSpace(n, panel_size, nprocs)
 		    + (nzlmax+nzumax)*iword + (nzlumax+nzumax)*dword);
         } else if ( lwork == 0 ) {
@@ -435,6 +442,28 @@ pdgstrf_MemInit(int_t n, int_t annz, superlumt_options_t *superlumt_options,
 #endif
 
     return 0;
+
+ give_up:
+    /* The initial allocation failed (refact == NO): no factors will be
+       handed to the caller, so give back what was obtained so far. */
+    if ( whichspace == SYSTEM ) {
+	SUPERLU_FREE(xsup);
+	SUPERLU_FREE(xsup_end);
+	SUPERLU_FREE(supno);
+	SUPERLU_FREE(xlsub);
+	SUPERLU_FREE(xlsub_end);
+	SUPERLU_FREE(xlusup);
+	SUPERLU_FREE(xlusup_end);
+	SUPERLU_FREE(xusub);
+	SUPERLU_FREE(xusub_end);
+	SUPERLU_FREE(lusup);
+	SUPERLU_FREE(ucol);
+	SUPERLU_FREE(lsub);
+	SUPERLU_FREE(usub);
+    }
+    SUPERLU_FREE(dexpanders);
+    dexpanders = 0;
+    return t;
     
 } /* pdgstrf_MemInit */
 
